@@ -114,6 +114,15 @@ def main():
         terms.append(f"run_mulv {nlist(rows)} {x}%N")
         checks.append(("mulv", [prod], {"rows": rows, "x": x}))
 
+    # 1b. matrix-vector products on wide registers (more than 64 spin orbitals: the words no longer fit a machine word)
+    for _ in range(12 if quick else 120):
+        n = rng.choice([64, 65, 72, 100, 130])
+        rows = [rng.getrandbits(n) | (1 << rng.randrange(64, n) if n > 64 else 0) for _ in range(rng.randint(1, 6))]
+        x = rng.getrandbits(n) | (1 << (n - 1))
+        prod = (bits_matrix(rows, n) @ BF.BinaryArray([(x >> j) & 1 for j in range(n)])).binary
+        terms.append(f"run_mulv {nlist(rows)} {x}%N")
+        checks.append(("mulv", [prod], {"rows": rows, "x": x, "n": n}))
+
     # 2. mappings
     insts = []
     for n in range(1, 11 if quick else 13):
